@@ -594,7 +594,13 @@ cannot parse duration string `%s'", argi->alt_inc_arg);
 				lst.d = dt_date(fst.d.typ);
 				dt_make_d_only(&lst, fst.d.typ);
 			}
-			clo.ite->d = dt_make_ddur(DT_DURD, 1);
+			if (fst.d.typ != DT_BIZDA) {
+				clo.ite->d = dt_make_ddur(DT_DURD, 1);
+			} else {
+				/* there's no business day to denote the day
+				 * after a friday, step in business days */
+				clo.ite->d = dt_make_ddur(DT_DURBD, 1);
+			}
 		} else if (dt_sandwich_only_t_p(fst)) {
 			/* emulates old tseq(1) */
 			if (argi->nargs == 1U) {
@@ -743,13 +749,20 @@ increment must not be naught");
 		tmp = __seq_this(clo.fst, &clo);
 	}
 
-	for (; __in_range_p(dt_fixup(tmp), &clo); tmp = __seq_next(tmp, &clo)) {
+	for (struct dt_dt_s nxt; __in_range_p(dt_fixup(tmp), &clo); tmp = nxt) {
 		struct dt_dt_s tgt = tmp;
 
 		if (LIKELY(ofmt == NULL)) {
 			tgt = dt_dtconv(tgttyp, tmp);
 		}
 		dt_io_write(tgt, ofmt, NULL, '\n');
+
+		nxt = __seq_next(tmp, &clo);
+		if (UNLIKELY(nxt.d.u == tmp.d.u && nxt.t.u == tmp.t.u)) {
+			/* the increment doesn't get us anywhere from here,
+			 * e.g. a day past a friday in business days */
+			break;
+		}
 	}
 
 out:
